@@ -25,7 +25,9 @@ from .common import Check, Err, Raw, cN, cbool, clist, cpair, cval, impl_call
 IMPORTS = ("From Coq Require Import List NArith ZArith Bool.\n"
            "From Verif Require Import Base.Val C10.Model_C10 C10.Spec_C10.")
 ANCHORS = ["restrictions/required_use.py", "ebuild/ebuild_src.py::base.required_use",
-           "ebuild/ebuild_src.py::base._mk_required_use_node"]
+           "ebuild/ebuild_src.py::base._mk_required_use_node",
+           # the lru_cache of _compiled_constraints is keyed by these
+           "ebuild/conditionals.py::DepSet.__hash__", "ebuild/conditionals.py::DepSet.__eq__"]
 FL = "abcdefgh"
 KINDS = {"AssertionError": "AssertionError", "ValueError": "ValueError"}
 OPS = ["||", "", "^^", "??"]
